@@ -60,6 +60,24 @@ def string_udt(draw, used_names, used_tids):
 
 
 @st.composite
+def lookalike_udt(draw, used_names, used_tids):
+    """an ordinary structure whose only members happen to be called LEN and DATA (a message buffer): not a string type - a string
+    has a DINT LEN at offset 0 and its SINT data at offset 4"""
+    lt = draw(st.sampled_from(["INT", "SINT", "LINT", "REAL", "UDINT", "INT"]))
+    ls = ATOMIC[lt][1]
+    n = draw(st.integers(1, 12))
+    doff = ls + draw(st.sampled_from([0, 0, 2]))
+    return {
+        "name": draw(ident(used_names)), "tid": draw(fresh_tid(used_tids)), "handle": draw(st.integers(1, 0xFFFF)),
+        "size": pad_to(doff + n, 4), "string": None, "predefined": False, "name_has_semicolon": True,
+        "members": [
+            {"name": "LEN", "kind": "atomic", "type": lt, "array": 0, "offset": 0, "hidden": False},
+            {"name": "DATA", "kind": "atomic", "type": "SINT", "array": n, "offset": doff, "hidden": False},
+        ],
+    }
+
+
+@st.composite
 def fresh_tid(draw, used, predefined=False):
     for _ in range(100):
         if predefined:
@@ -194,6 +212,10 @@ def projects(draw, size_bias=None, max_tags=10, long_names=False):
     udts = [dict(BUILTIN_STRING, members=[dict(m) for m in BUILTIN_STRING["members"]])]
     for _ in range(draw(st.integers(0, 2))):
         u = draw(string_udt(used_names, used_tids))
+        depth_of[u["name"]] = 0
+        udts.append(u)
+    if draw(st.integers(0, 5)) == 0:
+        u = draw(lookalike_udt(used_names, used_tids))
         depth_of[u["name"]] = 0
         udts.append(u)
     for _ in range(draw(st.integers(0, 4))):
